@@ -80,3 +80,44 @@ c04_pareto!(c04_pareto_f64, f64);
 //@ funcs: Pareto::<f32>::new
 //@ bounds: every pair of f32 bit patterns
 c04_pareto!(c04_pareto_f32, f32);
+
+// ---- C07 ----------------------------------------------------------------------------------------
+macro_rules! c07_pareto {
+    ($name:ident, $f:ty, $oc:ident) => {
+        vproof_free! {
+            fn $name() {
+                let mut rng = SymRng::new(1);
+                let w0 = rng.words[0];
+                let scale: $f = kani::any();
+                let sel: u8 = kani::any();
+                let (shape, neg_inv): ($f, $f) = match sel & 3 { 0 => (2.0, -0.5), 1 => (0.25, -4.0), 2 => (1.0, -1.0), _ => (8.0, -0.125) };
+                let d = match Pareto::<$f>::new(scale, shape) { Ok(d) => d, Err(_) => return };
+                vassert!(d.inv_neg_shape == neg_inv, "Pareto: inv_neg_shape is not -1/shape");
+                let x: $f = d.sample(&mut rng);
+                vassert!(rng.pos == 1, "Pareto: number of words consumed depends on the parameters");
+                vassert!(flog_n() == 1, "Pareto: expected exactly one power");
+                let (b, e, g) = flog_get(0);
+                vassert!(b == $oc(w0) as f64, "Pareto: base of the power is not the OpenClosed01 draw");
+                vassert!(e == neg_inv as f64, "Pareto: exponent is not -1/shape");
+                vassert!(biteq64(x as f64, (scale * (g as $f)) as f64), "Pareto: sample is not scale * g");
+                kani::cover!(g == 2.0, "g = 2");
+            }
+        }
+    };
+}
+//@ id: c07_pareto_f64
+//@ prop: C07
+//@ tier: quick
+//@ cap: 900
+//@ funcs: Pareto::<f64>::new (inv_neg_shape); Pareto::<f64>::sample
+//@ bounds: every accepted scale, shape in {1/4, 1, 2, 8}; every word; g over the free-stub value set
+//@ assumes: libm::pow replaced by a free logging stub
+c07_pareto!(c07_pareto_f64, f64, oc01_64);
+//@ id: c07_pareto_f32
+//@ prop: C07
+//@ tier: quick
+//@ cap: 900
+//@ funcs: Pareto::<f32>::new; Pareto::<f32>::sample
+//@ bounds: as c07_pareto_f64
+//@ assumes: libm::powf replaced by a free logging stub
+c07_pareto!(c07_pareto_f32, f32, oc01_32);
